@@ -1,6 +1,6 @@
 From Coq Require Import ZArith QArith Qabs List Bool.
 Import ListNotations.
-From GV Require Import Common.Wire C16.Model C16.Lemmas.
+From GV Require Import Common.Wire C16.Model C16.Lemmas gen.Gen_frbcache C16.Lemmas2.
 Open Scope Q_scope.
 
 (* np.round (half to even) returns an integer within 1/2 of its argument ... *)
@@ -78,3 +78,61 @@ Print Assumptions cache_step_sound.
 Theorem cache_transparent : forall W, wf_world W -> forall reqs, run_cached W empty_state reqs = map (frb W) reqs.
 Proof. exact Lemmas.cache_transparent. Qed.
 Print Assumptions cache_transparent.
+
+(* ---- round 4: the caller's objects.  A history interleaves in-place changes of the caller's bounds lists and subset-state
+   objects with requests that pass those objects (Model.hop); run_hist P is compute_fixed_resolution_buffer with its caches
+   under the key policy P (which parts of a key are private values, which are the caller's objects read again at every
+   comparison), plain_hist is the function without cache_id on what the objects contain when each call is made. ---- *)
+
+(* snapshot_keys_transparent: if every part of a key is stored by value (a snapshot taken when the entry is stored), the cache is
+   transparent under EVERY interleaving of in-place changes (bounds[i] = ..., bounds[:] = ..., state changed in place) and requests. *)
+Theorem snapshot_keys_transparent : forall P, by_value_bounds P -> pol_sref P = false ->
+  forall W, wf_world W -> forall H h, run_hist P W H empty_hstate h = plain_hist W H h.
+Proof. exact Lemmas2.snapshot_keys_transparent. Qed.
+Print Assumptions snapshot_keys_transparent.
+
+(* glue_keys_transparent (the partial statement that holds for the code as it is: bounds_for_cache builds a new list, the
+   subset state is kept as the object and compared by identity): transparent under every interleaving of in-place changes of the
+   bounds lists and requests, as long as no subset-state object is changed in place.  (injective: distinct state objects are
+   distinct mask slots of the world; slots may hold equal masks.)
+   Full statement, refuted below:  forall W H h, wf_world W -> run_hist glue_policy W H empty_hstate h = plain_hist W H h. *)
+Theorem glue_keys_transparent : forall W, wf_world W -> forall H h, injective (hs H) -> no_state_change h ->
+  run_hist glue_policy W H empty_hstate h = plain_hist W H h.
+Proof. exact Lemmas2.glue_keys_transparent. Qed.
+Print Assumptions glue_keys_transparent.
+
+(* state_object_key_refuted (known finding subset-state-changed-in-place): with the subset state kept as the object, a state
+   changed in place between two mask requests under one cache id gets the mask of its earlier content. *)
+Theorem state_object_key_refuted : exists W H h, wf_world W /\ injective (hs H) /\
+  run_hist glue_policy W H empty_hstate h <> plain_hist W H h.
+Proof. exact Lemmas2.state_object_key_refuted. Qed.
+Print Assumptions state_object_key_refuted.
+
+(* caller_list_key_refuted: why the bounds key must be a snapshot - an implementation that keeps the caller's list itself when all
+   bounds are ranges (return_bounds_policy) is not transparent, even when no subset state is ever changed. *)
+Theorem caller_list_key_refuted : exists W H h, wf_world W /\ no_state_change h /\ injective (hs H) /\
+  run_hist return_bounds_policy W H empty_hstate h <> plain_hist W H h.
+Proof. exact Lemmas2.caller_list_key_refuted. Qed.
+Print Assumptions caller_list_key_refuted.
+
+From Coq Require Import String.
+(* key_functions_translated: bounds_for_cache and AnyScalar.__eq__ AS TRANSLATED FROM THE CURRENT SOURCE (coq/gen/Gen_frbcache.v,
+   regenerated on every run) are the model's key function under glue_policy - for every argument a private list (KVal, never the
+   caller's object) with the wildcard exactly on the scalar bounds outside the dimensions - and the model's wildcard equality. *)
+Theorem key_functions_translated :
+  (forall a bs D, bounds_for_cache_gen a bs D = mk_bkey glue_policy a bs D) /\
+  (forall b, any_scalar_eq_gen b = cb_match CAny b).
+Proof. exact Lemmas2.key_functions_translated. Qed.
+Print Assumptions key_functions_translated.
+
+(* key_layout_translated: the components of the ARRAY_CACHE / PIXEL_CACHE keys in the current source are the ones the model keys on
+   (data, bounds -> bounds_for_cache(bounds, all dimensions), target_data, target_cid.uuid | subset_state, broadcast; (data, target_data);
+   per-axis entries bounds_for_cache(bounds, dimensions)). *)
+Theorem key_layout_translated :
+  array_key_attr_gen = ["data"; "bounds"; "target_data"; "target_cid.uuid"; "broadcast"]%string /\
+  array_key_state_gen = ["data"; "bounds"; "target_data"; "subset_state"; "broadcast"]%string /\
+  pixel_key_gen = ["data"; "target_data"]%string /\
+  array_key_replaced_gen = (1%nat, "cache_bounds"%string) /\
+  key_bounds_calls_gen = [("bounds", "dimensions"); ("bounds", "dimensions_all")]%string.
+Proof. exact Lemmas2.key_layout_translated. Qed.
+Print Assumptions key_layout_translated.
